@@ -35,7 +35,7 @@ fn factorial(n: usize) -> u64 {
 
 /// k-th order of m items: all m! (Lehmer) when `all`, else identity, reversal,
 /// rotations, adjacent transpositions, move-to-front.
-fn order(m: usize, k: u64, all: bool) -> Vec<usize> {
+pub fn order_of(m: usize, k: u64, all: bool) -> Vec<usize> {
     let mut v: Vec<usize> = (0..m).collect();
     if all {
         let mut k = k;
@@ -208,7 +208,7 @@ pub fn run(args: &Args) -> i32 {
             let payload = &payloads[sc.payload];
             let chunks = build_chunks(payload, &sc.sizes, sc.fault);
             let m = chunks.len();
-            let ord = order(m, k, sc.all_orders);
+            let ord = order_of(m, k, sc.all_orders);
             let permuted: Vec<Vec<u8>> = ord.iter().map(|&i| chunks[i].clone()).collect();
             let h = hash64(&(si, k));
             let desc = || json!({"payload": sc.payload, "payload_len": payload.len(), "chunk_sizes": if sc.sizes.len() > 12 { json!(format!("{} x {} ..", sc.sizes.len(), sc.sizes[0])) } else { json!(sc.sizes) }, "fault": format!("{:?}", sc.fault), "order": if ord.len() > 16 { json!(format!("k={k}")) } else { json!(ord) }});
